@@ -104,10 +104,9 @@ void harness(void)
 		COVER(1);
 		POST(verif_all_logger_calls == 0, "a log call that cannot get its line buffer delivers nothing");
 		POST(in_logger == QB_FALSE, "in_logger is released on every exit");
-		return;
 	}
-	ASSUME(0);     /* the successful allocation is variant longline */
-#endif
+	/* the successful allocation is variant longline */
+#else
 	COVER(selected && !thr0[nd_w] && (kind0[nd_w] & 2));
 	COVER(selected && !thr0[nd_w] && kind0[nd_w] == 1 && verif_xc_pos > 0);
 	COVER(selected && thr0[nd_w]);
@@ -138,6 +137,7 @@ void harness(void)
 	POST(in_logger == QB_FALSE, "in_logger is released on every exit");
 #ifdef V_LONG
 	COVER(verif_alloc_calls == allocs0 + 1);
+#endif
 #endif
 #endif
 }
